@@ -614,8 +614,19 @@ func buildOverlayBinary(work string, race bool) (exe string, info *OverlayInfo, 
 		out, berr = cmd.CombinedOutput()
 		if berr == nil {
 			info.ResetHelper = ov == info.JSONWithReset
+			if info.ResetHelper {
+				// the helper reaches into the registry's internals; a refactored registry (e.g. one that keeps a
+				// cached listing next to its map) can make it unsound.  Self-test it; fall back to unique names.
+				if st := exec.Command(exe, "selftest-reset"); st.Run() != nil {
+					info.ResetHelper = false
+					continue
+				}
+			}
 			return exe, info, nil
 		}
+	}
+	if berr == nil {
+		return exe, info, nil
 	}
 	return "", info, fmt.Errorf("harness: overlay build failed: %v\n%s", berr, out)
 }
